@@ -24,7 +24,7 @@ open GoInt Model Proofs.Opcodes
 
 namespace Props.C02
 
-macro "c02_simp" : tactic => `(tactic| simp only [Gen.Instr.run, Gen.op_add.Run, Gen.op_addi.Run, Gen.op_and.Run, Gen.op_andi.Run, Gen.op_auipc.Run, Gen.op_beq.Run, Gen.op_beqz.Run, Gen.op_bge.Run, Gen.op_bgeu.Run, Gen.op_ble.Run, Gen.op_blt.Run, Gen.op_bltu.Run, Gen.op_bne.Run, Gen.op_bnez.Run, Gen.op_div.Run, Gen.op_j.Run, Gen.op_jal.Run, Gen.op_jalr.Run, Gen.op_lui.Run, Gen.op_lb.Run, Gen.op_lh.Run, Gen.op_li.Run, Gen.op_lw.Run, Gen.op_nop.Run, Gen.op_mul.Run, Gen.op_mv.Run, Gen.op_or.Run, Gen.op_ori.Run, Gen.op_rem.Run, Gen.op_ret.Run, Gen.op_sb.Run, Gen.op_sh.Run, Gen.op_sll.Run, Gen.op_slli.Run, Gen.op_slt.Run, Gen.op_sltu.Run, Gen.op_slti.Run, Gen.op_sra.Run, Gen.op_srai.Run, Gen.op_srl.Run, Gen.op_srli.Run, Gen.op_sub.Run, Gen.op_sw.Run, Gen.op_xor.Run, Gen.op_xori.Run, ofGen, Spec.exec, Spec.ROp.eval, Spec.IOp.eval, Spec.Cond.eval, rd0_view _ _ _ ‹_›, pure, Except.pure, Proofs.Bytes.bind_ok, ebind_ok, resOfGen_ok, resOfSpec_ok, toOutcome_wr])
+macro "c02_simp" : tactic => `(tactic| simp (disch := exact rfl) only [resOfGen_wr, Gen.Instr.run, Gen.op_add.Run, Gen.op_addi.Run, Gen.op_and.Run, Gen.op_andi.Run, Gen.op_auipc.Run, Gen.op_beq.Run, Gen.op_beqz.Run, Gen.op_bge.Run, Gen.op_bgeu.Run, Gen.op_ble.Run, Gen.op_blt.Run, Gen.op_bltu.Run, Gen.op_bne.Run, Gen.op_bnez.Run, Gen.op_div.Run, Gen.op_j.Run, Gen.op_jal.Run, Gen.op_jalr.Run, Gen.op_lui.Run, Gen.op_lb.Run, Gen.op_lh.Run, Gen.op_li.Run, Gen.op_lw.Run, Gen.op_nop.Run, Gen.op_mul.Run, Gen.op_mv.Run, Gen.op_or.Run, Gen.op_ori.Run, Gen.op_rem.Run, Gen.op_ret.Run, Gen.op_sb.Run, Gen.op_sh.Run, Gen.op_sll.Run, Gen.op_slli.Run, Gen.op_slt.Run, Gen.op_sltu.Run, Gen.op_slti.Run, Gen.op_sra.Run, Gen.op_srai.Run, Gen.op_srl.Run, Gen.op_srli.Run, Gen.op_sub.Run, Gen.op_sw.Run, Gen.op_xor.Run, Gen.op_xori.Run, ofGen, Spec.exec, Spec.ROp.eval, Spec.IOp.eval, Spec.Cond.eval, rd0_view _ _ _ ‹_›, pure, Except.pure, Proofs.Bytes.bind_ok, ebind_ok, resOfGen_ok, resOfSpec_ok, toOutcome_wr])
 
 
 theorem exec_add (o : Gen.op_add) (ctx : Model.Context) (labels : GoMap String Word)
@@ -151,7 +151,7 @@ theorem exec_jalr (o : Gen.op_jalr) (ctx : Model.Context) (labels : GoMap String
     (hz : Gen.registerRead ctx o.forward 0 seq = 0) :
     resOfGen ((Gen.Instr.jalr_ o).run ctx labels pc mem seq) =
       resOfSpec (Spec.exec (ofGen (.jalr_ o)) pc (view ctx o.forward seq) (labelsOf labels) mem) := by
-  c02_simp; exact congrArg Res.ok (toOutcome_wr_next _ _ _)
+  c02_simp; exact (resOfGen_ok _ (wfExe_wr_next _ _ _)).trans (congrArg Res.ok (toOutcome_wr_next _ _ _))
 
 theorem exec_lui (o : Gen.op_lui) (ctx : Model.Context) (labels : GoMap String Word)
     (pc : Word) (mem : List Byte) (seq : Word)
@@ -196,7 +196,7 @@ theorem exec_nop (o : Gen.op_nop) (ctx : Model.Context) (labels : GoMap String W
     (hz : Gen.registerRead ctx {} 0 seq = 0) :
     resOfGen ((Gen.Instr.nop_ o).run ctx labels pc mem seq) =
       resOfSpec (Spec.exec (ofGen (.nop_ o)) pc (view ctx {} seq) (labelsOf labels) mem) := by
-  c02_simp; simp [toOutcome]
+  c02_simp; exact (resOfGen_ok _ rfl).trans (by simp [toOutcome])
 
 theorem exec_mul (o : Gen.op_mul) (ctx : Model.Context) (labels : GoMap String Word)
     (pc : Word) (mem : List Byte) (seq : Word)
@@ -238,7 +238,7 @@ theorem exec_ret (o : Gen.op_ret) (ctx : Model.Context) (labels : GoMap String W
     (hz : Gen.registerRead ctx {} 0 seq = 0) :
     resOfGen ((Gen.Instr.ret_ o).run ctx labels pc mem seq) =
       resOfSpec (Spec.exec (ofGen (.ret_ o)) pc (view ctx {} seq) (labelsOf labels) mem) := by
-  c02_simp; simp [toOutcome]
+  c02_simp; exact (resOfGen_ok _ rfl).trans (by simp [toOutcome])
 
 theorem exec_sb (o : Gen.op_sb) (ctx : Model.Context) (labels : GoMap String Word)
     (pc : Word) (mem : List Byte) (seq : Word)
